@@ -132,7 +132,7 @@ struct SavedReport {
 fn replay_saved(prop: &str, out: &Path) {
     install_panic_hook();
     let known = KnownFindings::load();
-    let dir = Path::new(VERIF_ROOT).join("replays").join(prop);
+    let dir = verif_root().join("replays").join(prop);
     let mut rep = SavedReport::default();
     let mut files: Vec<PathBuf> = std::fs::read_dir(&dir)
         .map(|d| d.filter_map(|e| e.ok()).map(|e| e.path()).collect())
@@ -201,10 +201,10 @@ fn parent(prop: &str, tier: Tier) -> i32 {
         }
     };
     let exe = std::env::current_exe().unwrap();
-    let out_dir = Path::new(VERIF_ROOT).join("out").join(prop);
+    let out_dir = verif_root().join("out").join(prop);
     let _ = std::fs::remove_dir_all(&out_dir);
     std::fs::create_dir_all(&out_dir).unwrap();
-    if let Ok(rd) = std::fs::read_dir(Path::new(VERIF_ROOT).join("out").join("violations")) {
+    if let Ok(rd) = std::fs::read_dir(verif_root().join("out").join("violations")) {
         for e in rd.filter_map(|e| e.ok()) {
             if e.file_name().to_string_lossy().starts_with(&format!("{prop}-")) {
                 let _ = std::fs::remove_file(e.path());
@@ -296,7 +296,7 @@ fn parent(prop: &str, tier: Tier) -> i32 {
                 if cur.exists() {
                     // attribute the death to the logged case; confirm by replaying it alone
                     let body: Value = std::fs::read(&cur).ok().and_then(|b| serde_json::from_slice(&b).ok()).unwrap_or(Value::Null);
-                    let dir = Path::new(VERIF_ROOT).join("out").join("violations");
+                    let dir = verif_root().join("out").join("violations");
                     let _ = std::fs::create_dir_all(&dir);
                     let p = dir.join(format!("{prop}-abort-lane{lane}.json"));
                     let _ = std::fs::write(&p, serde_json::to_vec_pretty(&body).unwrap());
